@@ -9,10 +9,9 @@ use crate::{
     world::Committee,
 };
 
-const FAMILIES: [&str; 11] = [
+const FAMILIES: [&str; 12] = [
     "benign", "random-partition", "lossy-reorder", "equivocating-leader", "hidden-commit", "timeout-liar",
-    "vote-flood", "crash-random", "lagging-sync", "heal", "absurd",
-];
+    "vote-flood", "crash-random", "lagging-sync", "heal", "absurd", "poisoned-laggard"];
 
 fn policy(fam: &str, rng: &mut StdRng, steps: usize) -> (Policy, f64) {
     // returns (policy, byzantine fraction of f)
@@ -73,9 +72,22 @@ fn policy(fam: &str, rng: &mut StdRng, steps: usize) -> (Policy, f64) {
             p.p_sync = 0.08;
             p.p_forged_sync = 0.3;
             p.p_drop = 0.1;
+            if rng.gen_bool(0.6) {
+                // one correct node is cut off for the first half (the others keep committing), then catches up from a lying peer
+                p.laggard = true;
+                p.partition_period = 0;
+            }
+        }
+        "poisoned-laggard" => {
+            // one correct replica that the others need for a quorum is cut off; the Byzantine validators vote like honest ones so
+            // that the rest finalizes blocks, and feed the isolated replica old timeout certificates carrying new commit certificates
+            p.poisoned_laggard = true;
+            p.p_byz = 0.4;
+            p.p_drop = 0.02;
+            byz = 1.0;
         }
         "heal" => {
-            let inner = ["random-partition", "lossy-reorder", "equivocating-leader", "timeout-liar", "crash-random", "hidden-commit"][rng.gen_range(0..6)];
+            let inner = ["random-partition", "lossy-reorder", "equivocating-leader", "timeout-liar", "crash-random", "hidden-commit", "poisoned-laggard", "poisoned-laggard"][rng.gen_range(0..8)];
             let (q, b) = policy(inner, rng, steps);
             p = q;
             byz = b;
